@@ -1,6 +1,6 @@
 (* Extraction of the executable pool-allocator model (and the generated CorrectBlockSize it calls). ExtrOcamlBasic only. *)
 From Coq Require Import ZArith List Extraction ExtrOcamlBasic.
 From MomoCommon Require Import GenPrelude.
-From C20 Require Gen_UIntMath Gen_MemPoolConst Gen_MemPool Gen_PoolAllocator Gen_MemPoolOps PoolAlloc DiffRun.
+From C20 Require Gen_UIntMath Gen_MemPoolConst Gen_MemPool Gen_PoolAllocator Gen_MemPoolOps Gen_MemPoolNewBlock PoolAlloc DiffRun.
 Separate Extraction PoolAlloc.step PoolAlloc.init PoolAlloc.proto_ok PoolAlloc.h_ok PoolAlloc.routed_ok
-  PoolAlloc.outstanding PoolAlloc.get_params PoolAlloc.swap_ops PoolAlloc.from_cache PoolAlloc.cfg_default DiffRun.gen_alloc DiffRun.gen_dealloc PoolAlloc.alloc_eq PoolAlloc.alloc_decision PoolAlloc.dealloc_decision.
+  PoolAlloc.outstanding PoolAlloc.get_params PoolAlloc.swap_ops PoolAlloc.from_cache PoolAlloc.cfg_default DiffRun.gen_alloc DiffRun.gen_dealloc DiffRun.gen_newblock PoolAlloc.alloc_eq PoolAlloc.alloc_decision PoolAlloc.dealloc_decision.
